@@ -25,7 +25,7 @@ func groups() []Group {
 		},
 		{
 			Out:     "OidcVerifier.lean",
-			Imports: []string{"OidcModel.Model.KeySet"},
+			Imports: []string{"OidcModel.Model.KeySet", "OidcModel.Model.Int64C14"},
 			Opens:   []string{"Go", "Hand"},
 			Funcs: []FuncSpec{
 				{File: "pkg/oidc/verifier.go", Name: "DecryptToken", Lean: "DecryptToken", Params: []string{"(tokenString : Token)"}, Ret: RetValErr, RetType: "Token"},
@@ -37,13 +37,13 @@ func groups() []Group {
 					Params: []string{"(token : Token)", "(payload : Payload)", pClaims, "(supportedSigAlgs : List String)", "(set : KeySet)"},
 					Ret:    RetErr, RetParam: "claims", RetType: "Claims",
 					Rename: map[string]string{"jose.ParseSigned()": "Hand.joseParseSigned", "toJoseSignatureAlgorithms()": "Hand.toJoseSignatureAlgorithms"}},
-				{File: "pkg/oidc/verifier.go", Name: "CheckExpiration", Lean: "CheckExpiration", Params: []string{pClaims, "(offset : Int)"}, Ret: RetErr},
-				{File: "pkg/oidc/verifier.go", Name: "CheckIssuedAt", Lean: "CheckIssuedAt", Params: []string{pClaims, "(maxAgeIAT offset : Int)"}, Ret: RetErr},
+				{File: "pkg/oidc/verifier.go", Name: "CheckExpiration", Lean: "CheckExpiration", Params: []string{pClaims, "(offset : Int)"}, Ret: RetErr, Wrap64: true},
+				{File: "pkg/oidc/verifier.go", Name: "CheckIssuedAt", Lean: "CheckIssuedAt", Params: []string{pClaims, "(maxAgeIAT offset : Int)"}, Ret: RetErr, Wrap64: true},
 				{File: "pkg/oidc/verifier.go", Name: "CheckNonce", Lean: "CheckNonce", Params: []string{pClaims, "(nonce : String)"}, Ret: RetErr},
 				{File: "pkg/oidc/verifier.go", Name: "CheckAuthorizationContextClassReference", Lean: "CheckAuthorizationContextClassReference",
 					Params: []string{pClaims, "(acr : Option (String → Go.R Unit))"}, Ret: RetErr,
 					Rename: map[string]string{"acr()": "Go.callOpt acr"}},
-				{File: "pkg/oidc/verifier.go", Name: "CheckAuthTime", Lean: "CheckAuthTime", Params: []string{pClaims, "(maxAge : Int)"}, Ret: RetErr},
+				{File: "pkg/oidc/verifier.go", Name: "CheckAuthTime", Lean: "CheckAuthTime", Params: []string{pClaims, "(maxAge : Int)"}, Ret: RetErr, Wrap64: true},
 			},
 		},
 		{
